@@ -83,7 +83,8 @@ class Part:
             with contextlib.redirect_stdout(buf), contextlib.redirect_stderr(buf):
                 rc = mod.main(json.loads(json.dumps(params)))
         except BaseException as e:  # noqa: BLE001
-            self.inconcl.append(f"path witness {key}: driver raised {type(e).__name__}: {e}")
+            import traceback
+            self.inconcl.append(f"path witness {key}: driver raised {type(e).__name__}: {e} with {json.dumps(params)[:400]} :: {traceback.format_exc()[-700:]}")
             return False
         if rc == 0:
             self.validated_n += 1
@@ -258,7 +259,11 @@ class Run:
         env["PYTHONPATH"] = REPO + os.pathsep + VERIF
         env.setdefault("NUMBA_CACHE_DIR", os.path.join(VERIF, ".cache", "numba"))
         p = subprocess.run([PY, path], capture_output=True, text=True, timeout=timeout, env=env)
-        return p.returncode, (p.stdout + p.stderr)[-2000:]
+        rc, out = p.returncode, p.stdout + p.stderr
+        if rc == 1 and "MISMATCH" not in out:
+            # an uncaught exception also exits with 1: only a driver that *states* the mismatch has reproduced something
+            rc = 70
+        return rc, out[-2000:]
 
     def violation(self, key, desc, replay_src, model=None):
         """A solver model broke an obligation.  Write a replay script against the real
